@@ -674,6 +674,33 @@ def evaluate(sim, quiescent: bool, st: dict, V: Verdicts) -> dict:
     # (2) awaiting a cancelled future fails
     cancels = {}
     rec_of = {r['t']: r for r in sim.translog}
+    # (4) a cancel reaches every slot of the future that has no result yet:
+    # for each unfinished slot the cancelling step puts a CANCEL of that
+    # slot's address on the wire (otherwise no node can ever learn that the
+    # slot - and everything it spawns from now on - is cancelled)
+    from bqskit.runtime.message import RuntimeMessage as _M
+    for ei, e in enumerate(ev):
+        if e[1] != 'cancel' or len(e) < 7 or e[6] is None or e[5] is None:
+            continue
+        rec = rec_of.get(sim.ev_step[ei])
+        if rec is None:
+            continue
+        if any(mm[0] == _M.ERROR for _, _, mm in rec['emitted']):
+            continue            # the call itself failed: other oracles
+        sent = set()
+        for _, _, mm in rec['emitted']:
+            if mm[0] == _M.CANCEL and hasattr(mm[1], 'mailbox_index'):
+                sent.add((mm[1].worker_id, mm[1].mailbox_index,
+                          mm[1].mailbox_slot))
+        missing = [sl for sl in e[6] if (e[4], e[5], sl) not in sent]
+        stats['cancel_slot_checks'] = stats.get('cancel_slot_checks', 0) + 1
+        if missing:
+            V.add('C12', 'cancel-skips-unfinished-slot',
+                  f'task {e[2]} cancelled future {e[3]} (mailbox {e[5]} of '
+                  f'worker {e[4]}) while slots {list(e[6])} had no result '
+                  f'yet, but no CANCEL was sent for slots {missing}: that '
+                  f'work and whatever it submits from now on is never '
+                  f'cancelled anywhere', e[0])
     for ei, e in enumerate(ev):
         if e[1] == 'cancel':
             cancels.setdefault((e[2], e[3]), e[0])
